@@ -3,10 +3,13 @@ Props/C05.lean — property theorems for C05 (Column expressions denote the tree
 SQL three-valued logic).
 
 Model: Impl/C05Column.lean (`build`, driven by the regenerated `Gen.ColumnOps` through `theCfg`),
+Impl/C05Lit.lean (how a plain Python value becomes a literal: `Column._lit`, `Column(v)`, `functions.lit`,
+the `@meta` alias — driven by the regenerated `Gen.ColumnLit` — and how the engine reads the literal's text),
 Impl/C05Engine.lean (the engine's operator-precedence parse of the rendered text, `engineTree`).
 Full statement (`C05_full_statement`) vs what is proved (`C05_partial`): see the bottom of the file.
 -/
 import SqlframeModel.Lemmas.C05Fns
+import SqlframeModel.Lemmas.C05Lit
 namespace Sqlframe
 open C05
 
@@ -20,14 +23,74 @@ theorem C05_table_ok : tableOK theCfg = true := by decide
 /-- arithmetic and `&`/`|` results are wrapped in `Paren` (`paren=True`), `unary_op` parenthesises its operand -/
 theorem C05_paren_flags : parenOK theCfg = true := by decide
 
+/-- the literal decision chains: every scalar reaches `exp.convert` except NaN, which is written as a cast of the
+    string 'NaN' to DOUBLE; `lit(str)` is a string literal; `Column(v)` sends a non-str value through `_lit` -/
+theorem C05_lit_chain_ok : litChainOK theLitCfg = true := by decide
+
+/-! ## literals -/
+
+/-- **ints round-trip.**  The engine's lexer reads Python's `str(i)` — the text `Literal.number(i)` holds — back as `i`,
+    for every integer. -/
+theorem C05_lit_int_roundtrip (i : Int) : readNumber (showInt i) = some (.int i) := readNumber_showInt i
+
+/-- **floats round-trip.**  For every finite Python float (sign, shortest round-trip digits `ds`, decimal point
+    position `pt`) the engine's lexer reads `repr` — exponent form `d.ddde±XX` when `pt > 16 ∨ pt < -3`, else
+    `0.00ddd` / `ddd.ddd` / `ddd000.0` — back as exactly the decimal `0.ds · 10^pt`: no digit is dropped, the point
+    and the exponent are where they belong. -/
+theorem C05_lit_float_roundtrip (neg : Bool) (ds : List Nat) (pt : Int) (hne : ds ≠ []) (hd : ∀ d ∈ ds, d < 10) :
+    readNumber (floatRepr neg ds pt) = some (pyValue (.float (.fin neg ds pt))) :=
+  readNumber_floatRepr neg ds pt hne hd
+
+/-- **Literals are faithful.**  At every call site, whichever coercion of `Gen.ColumnLit` it uses (`Column._lit`,
+    `Column(v)`, `functions.lit`), the literal sqlframe writes for a None / bool / int / finite float / NaN / str is
+    read back by the engine as that value. -/
+theorem C05_lit_readsBack (k : Gen.Coerce) (v : PyVal) (hwf : v.wf = true) (hfin : v.finite = true) :
+    readsBack (coerceNode theLitCfg k v) v = true :=
+  coerceNode_readsBack theLitCfg C05_lit_chain_ok k v hwf hfin
+
+/-- **Literals incl. ±inf.**  … and an infinite float as well, at every call site whose coercion handles it. -/
+theorem C05_lit_readsBack_via (k : Gen.Coerce) (v : PyVal) (hwf : v.wf = true) (hi : infVia theLitCfg k v = true) :
+    readsBack (coerceNode theLitCfg k v) v = true :=
+  coerceNode_readsBack_via theLitCfg C05_lit_chain_ok k v hwf hi
+
+/-- the plain-operand routes (`Column._lit`, and `Column(v)` for a non-str value) write ±inf as a cast of
+    'Infinity' / '-Infinity' to DOUBLE, which the engine reads back as that infinity -/
+theorem C05_lit_inf_operand : infHandledVia theLitCfg .rawLit = true ∧ infHandledVia theLitCfg .strRawElseInit = true := by
+  decide
+
+/-- per node: the literals of a node whose ±inf go through handling coercions are read back -/
+theorem litAt_of_infAt (n : PyExpr) (hw : wfAt n = true) (hi : infAt theCfg n = true) : litAt theCfg n = true := by
+  cases n <;> simp only [litAt] <;> simp only [wfAt, pyValsAt, List.all_cons, List.all_nil, Bool.and_true] at hw
+    <;> simp only [infAt] at hi
+  case lit v => exact C05_lit_readsBack_via .litFn v hw hi
+  case raw s v => exact C05_lit_readsBack_via _ v hw hi
+  case arithL op v b => exact C05_lit_readsBack_via _ v hw hi
+  case cmpL op v b => exact C05_lit_readsBack_via _ v hw hi
+  case logicL op v b => exact C05_lit_readsBack_via _ v hw hi
+  case isin a vs =>
+    rw [List.all_eq_true] at hw hi ⊢
+    intro v hv
+    exact C05_lit_readsBack_via _ v (hw v hv) (hi v hv)
+  case like a p => exact C05_lit_readsBack _ (.str p) hw rfl
+
+/-- **Every literal of an in-scope program is read back.**  Under `H_floatLitFinite` (every ±inf of the program goes
+    through a coercion that handles it) every plain Python value of the program — at whatever call site — is written
+    as a literal whose text the engine reads as exactly that value. -/
+theorem C05_lits_readBack (e : PyExpr) (hwf : allNodes wfAt e = true) (h : H_floatLitFinite theCfg e = true) :
+    allNodes (litAt theCfg) e = true := by
+  unfold H_floatLitFinite at h
+  have key := litAt_of_infAt
+  induction e <;> simp_all [allNodes]
+
 /-! ## the theorems -/
 
 /-- **Meaning.**  For every expression the user can write, the tree sqlframe builds — evaluated with the
     grouping the tree has, `Paren` and `Alias` transparent — has the value of exactly that expression
     under three-valued logic: operand order (incl. reflected forms), grouping, negation scope,
     string-is-literal. -/
-theorem C05_meaning (env : Env) (e : PyExpr) : evalSql env (build theCfg e) = denote env e :=
-  build_meaning theCfg C05_table_ok env e
+theorem C05_meaning (env : Env) (e : PyExpr) (hwf : allNodes wfAt e = true) (hl : H_floatLitFinite theCfg e = true) :
+    evalSql env (build theCfg e) = denote env e :=
+  build_meaning theCfg C05_table_ok env e (C05_lits_readBack e hwf hl)
 
 /-- **Print/parse.**  The engine's grammar regroups the rendered text of a well-parenthesised tree into
     that same tree ("engine grouping = built grouping"). -/
@@ -45,35 +108,52 @@ theorem C05_wellParen_partial (e : PyExpr)
 
 /-- **C05, partial.**  Inside the scope hypotheses, what the engine returns for `SELECT <expr>` on any row is
     the value of the user's expression. -/
-theorem C05_partial (e : PyExpr) (env : Env) (h : inScope theCfg e = true) :
+theorem C05_partial (e : PyExpr) (env : Env) (hwf : allNodes wfAt e = true) (h : inScope theCfg e = true) :
     engineValue env (build theCfg e) = some (denote env e) := by
   simp only [inScope, Bool.and_eq_true] at h
-  obtain ⟨⟨⟨⟨h1, h2⟩, h3⟩, h4⟩, h5⟩ := h
+  obtain ⟨⟨⟨⟨⟨h1, h2⟩, h3⟩, h4⟩, h5⟩, h6⟩ := h
   have hw := C05_wellParen_partial e h1 h2 h3 h4
   have hf : fnsOK (build theCfg e) = true := by
     simp only [H_endswithFunction, allNodes_or] at h5
     exact build_fnsOK theCfg C05_table_ok e h5
-  simp [engineValue, engineTop_wellParenTop _ hw, hf, C05_meaning]
+  have hl : litsOK (build theCfg e) = true := build_litsOK theCfg e (C05_lits_readBack e hwf h6)
+  simp [engineValue, engineTop_wellParenTop _ hw, hf, hl, C05_meaning env e hwf h6]
 
-/-- the statement at full strength: no scope hypotheses -/
+/-- the statement at full strength: no scope hypotheses (`wfAt` is the representation invariant "a float is given by
+    genuine decimal digits", not a restriction on programs) -/
 def C05_full_statement : Prop :=
-  ∀ (e : PyExpr) (env : Env), engineValue env (build theCfg e) = some (denote env e)
+  ∀ (e : PyExpr) (env : Env), allNodes wfAt e = true → engineValue env (build theCfg e) = some (denote env e)
 
-/-- once the generated flags say every cause is repaired in the source, the full statement holds -/
+/-- once the generated flags say every cause is repaired in the source — and the regenerated literal chains write ±inf
+    in a way the engine reads back — the full statement holds -/
 theorem C05_full_of_repaired
-    (h : (fixCmp theCfg && fixSubj theCfg && fixRefl theCfg && fixBound theCfg && fixEndswith theCfg) = true) :
+    (h : (fixCmp theCfg && fixSubj theCfg && fixRefl theCfg && fixBound theCfg && fixEndswith theCfg) = true)
+    (hinf : infHandled theLitCfg = true) :
     C05_full_statement := by
-  intro e env
+  intro e env hwf
   simp only [Bool.and_eq_true] at h
-  apply C05_partial
+  apply C05_partial e env hwf
+  have hvia : ∀ k, infHandledVia theCfg.lit k = true := by
+    simp only [infHandled, Bool.and_eq_true] at hinf
+    intro k; cases k
+    · exact hinf.1.1
+    · exact hinf.1.2
+    · exact hinf.2
+  have hl : H_floatLitFinite theCfg e = true := by
+    unfold H_floatLitFinite
+    have key : ∀ n, infAt theCfg n = true := by
+      intro n
+      cases n <;> simp [infAt, infVia, hvia]
+    clear h hwf hinf
+    induction e <;> simp_all [allNodes]
   simp [inScope, H_cmpOperandAtomic, H_predSubjectAtomic, H_reflectedBoolParen, H_betweenBoundUnaliased,
-    H_endswithFunction, h.1.1.1.1, h.1.1.1.2, h.1.1.2, h.1.2, h.2]
+    H_endswithFunction, hl, h.1.1.1.1, h.1.1.1.2, h.1.1.2, h.1.2, h.2]
 
 /-! ## truth tables: the whole pipeline (build, engine parse, evaluation) against the SQL tables written out -/
 
-def tv : List Val := [.null, .bool true, .bool false]
-def env2 (a b : Val) : Env := fun n => if n = "p" then a else if n = "q" then b else .null
-def table2 (e : PyExpr) : List (Option Val) :=
+def tv : List CVal := [.null, .bool true, .bool false]
+def env2 (a b : CVal) : Env := fun n => if n = "p" then a else if n = "q" then b else .null
+def table2 (e : PyExpr) : List (Option CVal) :=
   tv.flatMap fun a => tv.map fun b => engineValue (env2 a b) (build theCfg e)
 
 /-- rows: p = NULL, TRUE, FALSE; columns: q = NULL, TRUE, FALSE -/
@@ -104,7 +184,8 @@ theorem C05_truth_tables :
 
 def envW : Env := fun n =>
   if n = "p" then .bool false else if n = "q" then .bool true
-  else if n = "x" then .null else if n = "y" then .int 0 else if n = "s" then .str "a" else .null
+  else if n = "x" then .null else if n = "y" then .int 0 else if n = "s" then .str "a"
+  else if n = "d" then .dbl (.fin 4 0) else .null
 
 /-- `p == x.isNull()` renders `p = x IS NULL`, which the engine groups as `(p = x) IS NULL` -/
 def wit_cmpOperand : PyExpr := .cmp .eq (.col "p") (.isNull (.col "x"))
@@ -118,6 +199,17 @@ def wit_reflected : PyExpr := .logic .and (.col "p") (.logicL .or (.bool true) (
 def wit_betweenAlias : PyExpr := .between (.col "y") (.alias (.col "x") "lo") (.lit (.int 2))
 /-- `s.endswith('a')` renders `ENDSWITH(s, 'a')`, a function DuckDB does not have -/
 def wit_endswith : PyExpr := .strFn .endswith (.col "s") (.lit (.str "a"))
+
+/-- `lit(float('-inf'))` is the *string* '-inf' -/
+def wit_infLit : PyExpr := .lit (.float (.inf true))
+/-- `when(p, 1.5).otherwise(float('inf'))` — `otherwise` goes through `lit` -/
+def wit_infOtherwise : PyExpr :=
+  .when (.col "p") (.raw .when (.float (.fin false [1, 5] 1))) (.otherwise (.raw .otherwise (.float (.inf false))))
+
+theorem C05_cex_floatLitFinite : infHandledVia theLitCfg .litFn = false →
+    engineValue envW (build theCfg wit_infLit) = some (.str "-inf") ∧ denote envW wit_infLit = .dbl .ninf
+    ∧ engineValue envW (build theCfg wit_infOtherwise) = some (.str "inf") ∧ denote envW wit_infOtherwise = .dbl .pinf := by
+  decide
 
 theorem C05_cex_cmpOperandAtomic : fixCmp theCfg = false →
     engineValue envW (build theCfg wit_cmpOperand) = some (.bool true) ∧ denote envW wit_cmpOperand = .bool false
@@ -146,7 +238,8 @@ theorem C05_cex_out_of_scope :
     ∧ (fixSubj theCfg = false → H_predSubjectAtomic theCfg wit_predSubject = false)
     ∧ (fixRefl theCfg = false → H_reflectedBoolParen theCfg wit_reflected = false)
     ∧ (fixBound theCfg = false → H_betweenBoundUnaliased theCfg wit_betweenAlias = false)
-    ∧ (fixEndswith theCfg = false → H_endswithFunction theCfg wit_endswith = false) := by
+    ∧ (fixEndswith theCfg = false → H_endswithFunction theCfg wit_endswith = false)
+    ∧ (infHandledVia theLitCfg .litFn = false → H_floatLitFinite theCfg wit_infLit = false ∧ H_floatLitFinite theCfg wit_infOtherwise = false) := by
   decide
 
 /-! ## non-vacuity: non-trivial programs meet the hypotheses -/
@@ -167,6 +260,39 @@ def ex_case : PyExpr :=
 example : inScope theCfg ex_case = true := by decide
 example : engineValue envW (build theCfg ex_case) = some (.bool true) := by decide
 example : evalSql envW (build theCfg ex_case) = .bool true ∧ denote envW ex_case = .bool true := by decide
+/-- `((d + 1.234e-05) * 2 < 1e+16 - f) & d.isin(2.5e-07, None) | (-1e-09 <= d)`, Python floats in every spelling -/
+def ex_doubles : PyExpr :=
+  .logic .or
+    (.logic .and
+      (.cmp .lt (.arith .mul (.arith .add (.col "d") (.raw .binary (.float (.fin false [1, 2, 3, 4] (-4))))) (.raw .binary (.int 2)))
+                (.arithL .sub (.float (.fin false [1] 17)) (.col "f")))
+      (.isin (.col "d") [.float (.fin false [2, 5] (-6)), .none]))
+    (.cmpL .le (.float (.fin true [1] (-8))) (.col "d"))
+example : inScope theCfg ex_doubles = true := by decide
+example : allNodes wfAt ex_doubles = true ∧ allNodes finiteAt ex_doubles = true := by decide
+example : engineValue envW (build theCfg ex_doubles) = some (.bool true) ∧ denote envW ex_doubles = .bool true := by decide
+example : (rawLit theLitCfg (.float (.fin false [2, 5] (-6)))) = .tok (.number "2.5e-07")
+    ∧ (rawLit theLitCfg (.float (.fin false [1] 17))) = .tok (.number "1e+16")
+    ∧ (rawLit theLitCfg (.float (.fin true [1, 2, 3, 4, 5, 6, 7, 8, 9] 6))) = .tok (.number "-123456.789")
+    ∧ (rawLit theLitCfg (.float .nan)) = .cast (.string "NaN") "DOUBLE" := by decide
+-- the round-trip theorems at work: the four layouts of `repr`, a negative exponent-form float, an int beyond 2^63
+example : readNumber (floatRepr false [2, 5] (-6)) = some (.dbl (.fin 25 (-8))) ∧ String.ofList (floatRepr false [2, 5] (-6)) = "2.5e-07" := by decide
+example : readNumber (floatRepr false [1, 2, 3] (-2)) = some (.dbl (.fin 123 (-5))) ∧ String.ofList (floatRepr false [1, 2, 3] (-2)) = "0.00123" := by decide
+example : readNumber (floatRepr true [1, 2, 3, 4] 2) = some (.dbl (.fin (-1234) (-2))) ∧ String.ofList (floatRepr true [1, 2, 3, 4] 2) = "-12.34" := by decide
+example : readNumber (floatRepr false [1, 2] 5) = some (.dbl (.fin 12 3)) ∧ String.ofList (floatRepr false [1, 2] 5) = "12000.0" := by decide
+example : readNumber (showInt (-9223372036854775809)) = some (.int (-9223372036854775809)) := by decide
+example : (PyVal.float (.fin true [1, 5] (-7))).wf = true ∧ (PyVal.float (.fin true [1, 5] (-7))).finite = true
+    ∧ readsBack (coerceNode theLitCfg .strRawElseInit (.float (.fin true [1, 5] (-7)))) (.float (.fin true [1, 5] (-7))) = true := by decide
+example : allNodes wfAt ex_doubles = true ∧ H_floatLitFinite theCfg ex_doubles = true ∧ allNodes (litAt theCfg) ex_doubles = true := by decide
+/-- `(d < float('inf')) & d.between(float('-inf'), 4.0) & (float('inf') > d * float('inf')).isNull()`: infinities as plain operands are in scope -/
+def ex_infOperands : PyExpr :=
+  .logic .and
+    (.logic .and (.cmp .lt (.col "d") (.raw .binary (.float (.inf false))))
+                 (.between (.col "d") (.raw .between (.float (.inf true))) (.raw .between (.float (.fin false [4] 1)))))
+    (.isNotNull (.cmpL .gt (.float (.inf false)) (.arith .mul (.col "d") (.raw .binary (.float (.inf false))))))
+example : inScope theCfg ex_infOperands = true ∧ allNodes wfAt ex_infOperands = true := by decide
+example : engineValue envW (build theCfg ex_infOperands) = some (.bool true) ∧ denote envW ex_infOperands = .bool true := by decide
+example : rawLit theLitCfg (.float (.inf true)) = .cast (.string "-Infinity") "DOUBLE" := by decide
 example : ∃ t, wellParen t = true ∧ level t < atomLevel ∧ engineTree t = some t :=
   ⟨build theCfg (.cmp .lt (.col "x") (.col "y")), by decide, by decide, by decide⟩
 
